@@ -8,6 +8,7 @@ CONSTANTS
   FlushFsyncs = TRUE
   OpenFsyncs = TRUE
   DevSbPiecemeal = FALSE
+  DevErrorLostOnCrash = FALSE
 INVARIANT TypeOK
 INVARIANT Idempotent
 INVARIANT IdempotentSubsets
@@ -19,6 +20,8 @@ INVARIANT ProductFormExact
 INVARIANT Done
 INVARIANT SbAtomic
 INVARIANT SbAtomicOrDev
+INVARIANT ErrorRemembered
+INVARIANT ErrorRememberedSubsets
 INVARIANT CrashedIdempotent
 INVARIANT NoBlockedWrite
 CHECK_DEADLOCK FALSE
